@@ -359,11 +359,18 @@ def _queue_class(ctx, R, cls):
             "the name Queue can denote %s: only FIFO queues (asyncio.Queue / queue.Queue) keep arrival order per pair" % cands, mod.relpath)
     R.check("Queue" not in mod.assigns and "Queue" not in mod.classes, "FIFO", mod.name + "|Queue-rebound", "Queue is not rebound in the module", "Queue is redefined in the module", mod.relpath)
     # construction without arguments (unbounded, so put_nowait never fails)
+    from ..util import store_level
     for f in cls.methods.values():
+        g_ = ctx.cfg(f)
+        where = {}
+        for n_ in g_.nodes:
+            for c_ in node_calls(n_):
+                where[id(c_)] = n_
         for c in own_calls(f):
             if isinstance(c.func, ast.Name) and c.func.id == "Queue":
                 R.check(not c.args and not c.keywords, "FIFO", "%s|%s" % (f.qualname, norm_stmt(c)), "unbounded queue", "queue constructed with arguments `%s` (a bounded queue makes put_nowait fail)" % src(c), f.loc(c))
-            if isinstance(c.func, ast.Attribute) and c.func.attr in ("put", "get", "put_nowait", "get_nowait", "appendleft", "pop", "popleft", "append") and "_dict" in src(c.func.value):
+            lv = store_level(ctx, f, where.get(id(c)), c.func.value) if isinstance(c.func, ast.Attribute) else None
+            if isinstance(c.func, ast.Attribute) and c.func.attr in ("put", "get", "put_nowait", "get_nowait", "appendleft", "pop", "popleft", "append") and (lv == 2 or (lv is None and "_dict" in src(c.func.value))):
                 R.check(c.func.attr in ("put_nowait", "get_nowait"), "FIFO", "%s|%s" % (f.qualname, norm_stmt(c)), "queue used through %s" % c.func.attr,
                         "queue accessed through `%s` (only put_nowait/get_nowait keep FIFO order without blocking)" % c.func.attr, f.loc(c))
 
